@@ -452,7 +452,11 @@ func (d *Device) iosCryptoCanon(name string) string {
 			for _, s := range b.Sub {
 				w := strings.Fields(s)
 				if len(w) == 5 && w[0] == "set" && w[1] == "ip" && w[2] == "access-group" {
-					s = "set ip access-group acl{" + strings.Join(d.ExpandedACL(w[3]), " | ") + "} " + w[4]
+					// Same entries in every run of equal action.
+					s = "set ip access-group acl{" + strings.Join(Runs(d.ACEs(w[3])), " || ") + "} " + w[4]
+				}
+				if len(w) > 0 && (w[0] == "match" || w[0] == "description") {
+					continue // configured by hand, not managed
 				}
 				subs = append(subs, s)
 			}
